@@ -209,7 +209,10 @@ class Session:
         return r
 
     def rows(self):
-        return self.env.rows()
+        rs = self.env.rows()
+        for r in rs:
+            r["stage_ref"] = self.env.id_ref.get(r["payload"].get("stage_id"))
+        return rs
 
     def oracle_text(self) -> str:
         return spec_to_oracle(self.spec) + "\n".join(action_to_oracle(a) for a in self.actions) + "\nEND\n"
@@ -299,6 +302,8 @@ def families() -> dict[str, dict]:
     f["mutex_pair"] = {"stages": [S("A"), S("B", ["A"], mutex="k1", tasks=[["ok"], ["ok"]]), S("C", ["A"], mutex="k1"), S("D", ["B", "C"])]}
     f["choice3"] = {"stages": [S("A"), S("B", ["A"], choice="k1"), S("C", ["A"], choice="k1"), S("D", ["A"], choice="k1")]}
     f["skippable_disabled"] = {"stages": [S("A", tasks=[["ok"], ["ok"]], skippable_disabled=[0]), S("B", ["A"], tasks=[["ok"]], skippable_disabled=[0])]}
+    f["first_of_leaf"] = {"stages": [S("A"), S("B", ["A"]), S("C", ["A"], tasks=[["ok"], ["ok"], ["ok"]]),
+                                     S("J", ["B", "C"], join="DISCRIMINATOR")]}
     f["taskless"] = {"stages": [S("A", tasks=[]), S("B", ["A"])]}
     return f
 
@@ -356,6 +361,11 @@ def pick(rows: list[dict], rng: random.Random, policy: str) -> int:
         return ids[-1]
     if policy == "eager_delayed":       # adversarial w.r.t. budgets: ignore delays entirely
         return rng.choice([r["id"] for r in rows])
+    if policy.startswith("starve:"):    # adversarial: messages of one stage are delivered only when nothing else is pending
+        victim = policy.split(":", 1)[1]
+        cand = [r for r in rows if not r.get("delayed")] or rows
+        others = [r["id"] for r in cand if r.get("stage_ref") != victim]
+        return (others or [r["id"] for r in cand])[0]
     return rng.choice(ids)
 
 
@@ -557,6 +567,10 @@ def plan(pid: str, tier: str, rng: random.Random) -> list[dict]:
     rnd = [("rand%d" % i, random_spec(rng, {"joins", "skip"})) for i in range(120 if thorough else 25)]
     if pid in ("C02", "C03", "C05", "C06", "C09"):
         schedules(list(fam.items()) + rnd, ["fifo", "lifo", "random", "redeliver"], 6 if thorough else 2)
+        # starve every stage in turn: its messages are delivered only when nothing else is pending
+        for name, spec in list(fam.items()) + rnd[: (40 if thorough else 8)]:
+            for st in spec["stages"]:
+                add(kind="policy", policy="starve:" + st["ref"], spec=spec, name=name)
     if pid in ("C01", "C06", "C13"):
         names = list(fam) if thorough else CRASH_QUICK
         # every commit of the uninterrupted FIFO run is a crash point: measure the runs first
